@@ -544,4 +544,188 @@ theorem applyChangeSet_asChanges (cd : Codec) (hv : cd.Valid) (m : Manifest) (hw
     exact hperm.length_eq
   · simp [hd, Manifest.empty]
 
+/-! ## the per-level id sets are determined by the table map -/
+
+/-- The id set of level `l` (`[]` beyond `len(Levels)`). -/
+def levelAt (L : List (List Nat)) (l : Nat) : List Nat := (L[l]?).getD []
+
+theorem levelAt_grow (L : List (List Nat)) (k l : Nat) : levelAt (growLevels L k) l = levelAt L l := by
+  unfold levelAt growLevels
+  rw [List.getElem?_append]
+  by_cases h : l < L.length
+  · rw [if_pos h]
+  · rw [if_neg h, List.getElem?_eq_none (Nat.le_of_not_lt h), List.getElem?_replicate]
+    split <;> rfl
+
+theorem growLevels_length (L : List (List Nat)) (k : Nat) : k < (growLevels L k).length := by
+  unfold growLevels
+  simp only [List.length_append, List.length_replicate]
+  omega
+
+theorem levelAt_modify (L : List (List Nat)) (k l : Nat) (f : List Nat → List Nat) (hk : k < L.length) :
+    levelAt (L.modify k f) l = if k = l then f (levelAt L l) else levelAt L l := by
+  unfold levelAt
+  rw [List.getElem?_modify]
+  by_cases h : k = l
+  · subst h
+    simp only [if_true]
+    rw [List.getElem?_eq_getElem hk]
+    rfl
+  · simp only [h, if_false]
+    cases L[l]? <;> rfl
+
+theorem levelAt_map_erase (L : List (List Nat)) (id l : Nat) :
+    levelAt (L.map (setErase id)) l = setErase id (levelAt L l) := by
+  unfold levelAt
+  rw [List.getElem?_map]
+  cases L[l]? <;> rfl
+
+theorem mem_setInsert (x id : Nat) (s : List Nat) : x ∈ setInsert id s ↔ x = id ∨ x ∈ s := by
+  unfold setInsert
+  split
+  · rename_i h
+    constructor
+    · exact Or.inr
+    · rintro (rfl | h') <;> assumption
+  · simp
+
+theorem mem_setErase (x id : Nat) (s : List Nat) : x ∈ setErase id s ↔ x ∈ s ∧ x ≠ id := by
+  unfold setErase
+  simp [List.mem_filter]
+
+/-- `Levels[l]` is exactly the set of table ids whose `TableManifest.Level` is `l`. -/
+def Manifest.LevelsOK (m : Manifest) : Prop :=
+  ∀ l id, id ∈ levelAt m.levels l ↔ ∃ tm, m.lookup id = some tm ∧ tm.level = l
+
+theorem Manifest.LevelsOK_empty : Manifest.empty.LevelsOK := by
+  intro l id
+  simp [levelAt, Manifest.empty, Manifest.lookup]
+
+/-- Creates with a level below 256 (what badger emits: `TableManifest.Level` is a `uint8`). -/
+def Change.SmallLevel (c : Change) : Prop := c.op = 0 → c.level < 256
+
+theorem applyChange_LevelsOK {a a' : Manifest} (c : Change) (hs : c.SmallLevel) (hl : a.LevelsOK)
+    (ha : applyChange a c = .ok a') : a'.LevelsOK := by
+  unfold applyChange at ha
+  by_cases h0 : c.op = 0
+  · simp only [h0, if_true] at ha
+    cases hla : a.lookup c.id with
+    | some tm => simp [hla] at ha
+    | none =>
+      simp only [hla] at ha
+      cases ha
+      intro l id
+      simp only [Manifest.lookup, lookup_cons']
+      rw [levelAt_modify _ _ _ _ (growLevels_length _ _)]
+      have hmod : c.level % 256 = c.level := Nat.mod_eq_of_lt (hs h0)
+      by_cases hid : id = c.id
+      · subst hid
+        simp only [if_true, hmod]
+        by_cases hlv : c.level = l
+        · subst hlv
+          simp [mem_setInsert]
+        · simp only [hlv, if_false, levelAt_grow]
+          constructor
+          · intro hin
+            obtain ⟨tm, htm, _⟩ := (hl l c.id).mp hin
+            rw [hla] at htm; cases htm
+          · rintro ⟨tm, htm, hlv'⟩
+            cases htm
+            exact absurd hlv' hlv
+      · simp only [hid, if_false]
+        by_cases hlv : c.level = l
+        · subst hlv
+          simp only [if_true, mem_setInsert, levelAt_grow, hid, false_or]
+          exact hl _ id
+        · simp only [hlv, if_false, levelAt_grow]
+          exact hl l id
+  · by_cases h1 : c.op = 1
+    · simp only [h1, if_true] at ha
+      cases hla : a.lookup c.id with
+      | none =>
+        simp only [hla] at ha
+        cases ha
+        intro l id
+        simp only [levelAt_map_erase, mem_setErase]
+        constructor
+        · rintro ⟨hin, _⟩; exact (hl l id).mp hin
+        · intro h
+          refine ⟨(hl l id).mpr h, ?_⟩
+          intro hid
+          rw [hid] at h
+          obtain ⟨tm, htm, _⟩ := h
+          have htm' : a.lookup c.id = some tm := htm
+          rw [hla] at htm'; cases htm'
+      | some tm =>
+        simp only [hla] at ha
+        cases ha
+        have hin : c.id ∈ levelAt a.levels tm.level := (hl tm.level c.id).mpr ⟨tm, hla, rfl⟩
+        have hlen : tm.level < a.levels.length := by
+          unfold levelAt at hin
+          cases hq : a.levels[tm.level]? with
+          | none => rw [hq] at hin; simp at hin
+          | some s =>
+            have := List.getElem?_eq_some_iff.mp hq
+            exact this.1
+        intro l id
+        simp only [Manifest.lookup, lookup_filter_ne]
+        rw [levelAt_modify _ _ _ _ hlen]
+        by_cases hid : id = c.id
+        · subst hid
+          simp only [if_true]
+          constructor
+          · intro h
+            split at h
+            · simp [mem_setErase] at h
+            · rename_i hne
+              obtain ⟨tm', htm', hlv'⟩ := (hl l c.id).mp h
+              rw [hla] at htm'; cases htm'
+              exact absurd hlv' hne
+          · rintro ⟨tm', h, _⟩; cases h
+        · simp only [hid, if_false]
+          by_cases hlv : tm.level = l
+          · subst hlv
+            simp only [if_true, mem_setErase, ne_eq, hid, not_false_eq_true, and_true]
+            exact hl _ id
+          · simp only [hlv, if_false]
+            exact hl l id
+    · simp [h0, h1] at ha
+
+theorem applyChangeSet_LevelsOK {a a' : Manifest} (cs : ChangeSet) (hs : ∀ c, c ∈ cs → c.SmallLevel)
+    (hl : a.LevelsOK) (ha : applyChangeSet a cs = (a', none)) : a'.LevelsOK := by
+  induction cs generalizing a with
+  | nil => simp only [applyChangeSet] at ha; cases ha; exact hl
+  | cons c cs ih =>
+    simp only [applyChangeSet] at ha
+    cases hc : applyChange a c with
+    | error e => simp [hc] at ha
+    | ok a1 =>
+      simp only [hc] at ha
+      exact ih (fun x hx => hs x (by simp [hx])) (applyChange_LevelsOK c (hs c (by simp)) hl hc) ha
+
+theorem applyAll_LevelsOK {a a' : Manifest} (sets : List ChangeSet)
+    (hs : ∀ s, s ∈ sets → ∀ c, c ∈ s → c.SmallLevel)
+    (hl : a.LevelsOK) (ha : applyAll a sets = some a') : a'.LevelsOK := by
+  induction sets generalizing a with
+  | nil => simp only [applyAll] at ha; cases ha; exact hl
+  | cons cs sets ih =>
+    simp only [applyAll] at ha
+    rcases hc : applyChangeSet a cs with ⟨a1, _ | e⟩
+    · rw [hc] at ha
+      exact ih (fun x hx => hs x (by simp [hx])) (applyChangeSet_LevelsOK cs (hs cs (by simp)) hl hc) ha
+    · rw [hc] at ha; simp at ha
+
+theorem asChanges_smallLevel (cd : Codec) (hv : cd.Valid) (m : Manifest) (hw : m.WF) :
+    ∀ c, c ∈ asChanges cd m → c.SmallLevel := by
+  intro c hc _
+  unfold asChanges at hc
+  obtain ⟨e, he, rfl⟩ := List.mem_map.mp hc
+  exact hw.level_lt e ((hv.ord_perm m.tables).mem_iff.mp he)
+
+/-- Two manifests with the same table map and consistent level sets have the same level sets. -/
+theorem levels_eq_of_lookup_eq {a b : Manifest} (ha : a.LevelsOK) (hb : b.LevelsOK)
+    (h : ∀ id, a.lookup id = b.lookup id) (l id : Nat) :
+    id ∈ levelAt a.levels l ↔ id ∈ levelAt b.levels l := by
+  rw [ha l id, hb l id, h id]
+
 end Badger
